@@ -136,6 +136,20 @@ theorem weekday_succ (d : Int) : weekday (d + 1) = (weekday d + 1) % 7 := by
 
 theorem yearday_range (z : Int) : 0 ≤ yearDay z ∧ yearDay z ≤ 365 := yearDay_range' z
 
+/-- The day of the year stays below the length of its year (365, or 366 in a leap year). -/
+theorem yearday_lt_length (z : Int) :
+    yearDay z < (if isLeap (civilFromDays z).y then 366 else 365) := by
+  have h := (year_bounds z).2
+  rw [yearStart_succ] at h
+  unfold yearDay; unfold yearStart at h; omega
+
+/-- The year of a day is the unique year whose interval of day numbers contains it. -/
+theorem civil_year_unique (z y : Int) :
+    (civilFromDays z).y = y ↔ (daysFromCivil y 1 1 ≤ z ∧ z < daysFromCivil (y + 1) 1 1) := by
+  constructor
+  · intro h; subst h; exact year_bounds z
+  · intro h; exact year_unique z y h.1 h.2
+
 theorem isoweek_range (d : Int) : 1 ≤ (isoYearWeek d).2 ∧ (isoYearWeek d).2 ≤ 53 := by
   have h := yearDay_range' (thursdayOf d)
   simp only [isoYearWeek]
@@ -158,6 +172,38 @@ theorem isoweek_thursday (d : Int) :
     have : thursdayOf (thursdayOf d - 3 + k) = thursdayOf d := by
       unfold thursdayOf weekday at *; omega
     simp only [isoYearWeek, this]
+
+/-- ISO-8601's other characterisation: the week containing 4 January is week 1 of that year. -/
+theorem isoweek_jan4 (d y : Int) (h : civilFromDays d = ⟨y, 1, 4⟩) : isoYearWeek d = (y, 1) := by
+  have hr := civil_roundtrip' d
+  rw [h] at hr
+  have h3 : d = yearStart y + 3 := by
+    rw [← hr]; unfold yearStart daysFromCivil; simp only; omega
+  obtain ⟨_, t1, t2, _, _⟩ := thursdayOf_facts d
+  have hlen := yearStart_mono y (y + 1) (by omega)
+  have hy : (civilFromDays (thursdayOf d)).y = y := year_unique _ y (by omega) (by omega)
+  simp only [isoYearWeek, yearDay, hy]
+  unfold yearStart at h3 hlen
+  congr 1; omega
+
+/-- … and 28 December always lies in the last week (52 or 53) of its own ISO year. -/
+theorem isoweek_dec28 (d y : Int) (h : civilFromDays d = ⟨y, 12, 28⟩) :
+    (isoYearWeek d).1 = y ∧ 52 ≤ (isoYearWeek d).2 := by
+  have hr := civil_roundtrip' d
+  rw [h] at hr
+  have h3 : d = yearStart (y + 1) - 4 := by
+    rw [← hr]; unfold yearStart daysFromCivil
+    simp only [show ¬ ((12 : Int) ≤ 2) from by decide, show ((12 : Int) > 2) from by decide, if_true, if_false,
+      show ((1 : Int) ≤ 2) = True from by simp, show ¬ ((1 : Int) > 2) from by decide]
+    have e1 : (y + 1 - 1) = y := by omega
+    rw [e1]; omega
+  obtain ⟨_, t1, t2, _, _⟩ := thursdayOf_facts d
+  have hs := yearStart_succ y
+  have hy : (civilFromDays (thursdayOf d)).y = y := year_unique _ y (by split at hs <;> omega) (by omega)
+  simp only [isoYearWeek, yearDay, hy]
+  unfold yearStart at h3 hs
+  refine ⟨trivial, ?_⟩
+  split at hs <;> omega
 
 /-! ## Format / parse round trip -/
 
